@@ -183,21 +183,28 @@ class StandardRequestHandler(ControlRequestHandler):
                     abort_on_new_setup()
 
                 with m.State('CLEAR_FEATURE'):
+                    # For now, we only implement clearing ENDPOINT_HALT.
+                    stall_condition = \
+                        (setup.recipient != USBRequestRecipient.ENDPOINT) | \
+                        (setup.value     != USBStandardFeatures.ENDPOINT_HALT)
+
                     # Provide an response to the STATUS stage.
                     with m.If(interface.status_requested):
 
                         # If our stall condition is met, stall; otherwise, send a ZLP [USB 8.5.3].
-                        # For now, we only implement clearing ENDPOINT_HALT.
-                        stall_condition = \
-                            (setup.recipient != USBRequestRecipient.ENDPOINT) | \
-                            (setup.value     != USBStandardFeatures.ENDPOINT_HALT)
                         with m.If(stall_condition):
                             m.d.comb += handshake_generator.stall.eq(1)
+                            m.next = 'IDLE'
                         with m.Else():
                             m.d.comb += self.send_zlp()
 
+                    # CLEAR_FEATURE has no data stage; stall any attempt at one.
+                    with m.If(interface.data_requested):
+                        m.d.comb += handshake_generator.stall.eq(1)
+                        m.next = 'IDLE'
+
                     # Accept the relevant value after the packet is ACK'd...
-                    with m.If(interface.handshakes_in.ack):
+                    with m.If(interface.handshakes_in.ack & ~stall_condition):
                         m.d.comb += [
                             interface.clear_endpoint_halt.enable   .eq(1),
                             interface.clear_endpoint_halt.direction.eq(setup.index[7]),
